@@ -64,6 +64,24 @@ def push_hint(v, k, ind):
             ind + '    assert(%s(live_orders@, *env));' % v['OK'],
             ind + '}']
 
+def NLO(o):
+    return 'noise_lo(%s.params.p_limit, %s.params.p_market)' % (o, o)
+
+def NHI(o):
+    return 'noise_hi(%s.params.p_limit, %s.params.p_market)' % (o, o)
+
+def MSPEC(v):
+    m = 'mom_next(old(self).momentum, old(self).last_price, old(self).params.decay, %s)' % v['MIDO']
+    pm = 'mom_prob(%s, old(self).last_price, old(self).params.demand, old(self).params.scale, old(self).n)' % m
+    pl = 'old(self).params.order_ratio.mul_spec(%s)' % pm
+    return m, pl, pm
+
+def MLO(v, old):
+    return 'mom_lo(%s, %s, %s)' % MSPEC(v)
+
+def MHI(v, old):
+    return 'mom_hi(%s, %s, %s)' % MSPEC(v)
+
 def noise(multi):
     v = V(multi)
     name = 'NoiseMarketAgent' if multi else 'NoiseAgent'
@@ -75,12 +93,17 @@ def noise(multi):
           '            final(self).trader_ids@ == old(self).trader_ids@ && final(self).params == old(self).params%s && final(self).tick_size == old(self).tick_size,' % v['KEEP'],
           '            %s.len() <= %s.len() + 2 * old(self).trader_ids@.len(),                 // [C16.once_per_trader]' % (v['ORDO']('final(env)'), v['ORDO']('old(env)')),
           '            %s(final(self).orders@, *final(env)),                                                         // [C16.own_orders_known]' % v['OK'],
+          '            // activity rules: per trader, in processing order, at least one order per action whose probability is >= 1 and none for an action whose probability is 0',
+          '            exists|cut: Seq<int>| #[trigger] by_trader(%s, %s, old(self).trader_ids@, cut, %s, %s, old(self).trader_ids@.len() as int),   // [C16.activity]' % (v['ORDO']('old(env)'), v['ORDO']('final(env)'), NLO('old(self)'), NHI('old(self)')),
           '//@ at entry',
           '        broadcast use axiom_f64_add_total, axiom_f64_sub_total, axiom_f64_mul_total, axiom_f64_div_total;',
+          '        let ghost mut cut: Seq<int> = Seq::empty();',
           '//@ at before_loop 0',
           '        proof {',
           '            assert(mid_price == %s);' % v['MID'],
           '            assert(%s);' % ov(v, '*env'),
+          '            cut = seq![%s.len() as int];' % v['ORD']('env'),
+          '            lemma_by_trader_init(%s, self.trader_ids@, %s, %s);' % (v['ORD']('env'), NLO('self'), NHI('self')),
           '        }',
           '//@ loop 0 iter it',
           '            invariant',
@@ -88,8 +111,17 @@ def noise(multi):
           '                *self == *old(self), it.seq().len() == self.trader_ids@.len(), mid_price == %s,' % v['MID'],
           '                forall|j: int| 0 <= j < it.seq().len() ==> *it.seq()[j] == self.trader_ids@[j],',
           '                %s.len() <= %s.len() + 2 * it.index@, %s(live_orders@, *env),' % (v['ORD']('env'), v['ORD']('old(env)'), v['OK']),
+          '                by_trader(%s, %s, self.trader_ids@, cut, %s, %s, it.index@ as int),' % (v['ORD']('old(env)'), v['ORD']('env'), NLO('self'), NHI('self')),
           '//@ at loop_body_start 0',
-          '            proof { assert(self.trader_ids@.contains(*trader_id)); }',
+          '            broadcast use unit_draw_f32, below_one_below_threshold_f32;',
+          '            let ghost os_i = %s;' % v['ORD']('env'),
+          '            proof { assert(self.trader_ids@.contains(*trader_id)); axiom_f32_deterministic(); }',
+          '//@ at loop_body_end 0',
+          '            proof {',
+          '                assert forall|j: int| 0 <= j < os_i.len() implies %s[j] == os_i[j] by { }' % v['ORD']('env'),
+          '                lemma_by_trader_step(%s, os_i, %s, self.trader_ids@, cut, %s, %s, it.index@ as int);' % (v['ORD']('old(env)'), v['ORD']('env'), NLO('self'), NHI('self')),
+          '                cut = cut.push(%s.len() as int);' % v['ORD']('env'),
+          '            }',
           '//@ at before `place_buy_limit_order%s(` #1' % v['SFX'],
           '                let ghost e1 = *env;',
           '//@ at after `place_buy_limit_order%s(` #1' % v['SFX'],
@@ -132,9 +164,12 @@ def momentum(multi):
          '            // at most one limit and one market order per trader per call',
          '            %s.len() <= %s.len() + 2 * old(self).trader_ids@.len(),                 // [C16.once_per_trader]' % (fin('final(env)'), fin('old(env)')),
          '            %s(final(self).orders@, *final(env)),                                                         // [C16.own_orders_known]' % v['OK'],
+         '            // activity rules: per trader, in processing order, one order per action whose probability is >= 1 (when the signal has a direction) and none for probability 0 / no direction',
+         '            exists|cut: Seq<int>| #[trigger] by_trader(%s, %s, old(self).trader_ids@, cut, %s, %s, old(self).trader_ids@.len() as int),   // [C16.activity C17.activity]' % (fin('old(env)'), fin('final(env)'), MLO(v, True), MHI(v, True)),
          '//@ at entry',
          '        broadcast use axiom_f64_add_total, axiom_f64_sub_total, axiom_f64_mul_total, axiom_f64_div_total;',
          '        proof { axiom_f64_deterministic(); }',
+         '        let ghost mut cut: Seq<int> = Seq::empty();',
          '//@ at before_loop 0',
          '        proof {',
          '            assert(mid_price == %s);' % v['MID'],
@@ -143,6 +178,8 @@ def momentum(multi):
          '            // the propensity is a function of the MAGNITUDE of demand * tanh(scale * M) / n (C17: symmetric in rising and falling markets)',
          '            assert(p_market == mom_prob(m, self.last_price, self.params.demand, self.params.scale, self.n));                               // [C17.magnitude]',
          '            assert(p_limit == self.params.order_ratio.mul_spec(p_market));                                                                  // [C17.magnitude]',
+         '            cut = seq![%s.len() as int];' % v['ORD']('env'),
+         '            lemma_by_trader_init(%s, self.trader_ids@, mom_lo(m, p_limit, p_market), mom_hi(m, p_limit, p_market));' % v['ORD']('env'),
          '        }',
          '//@ loop 0 iter it',
          '            invariant',
@@ -153,8 +190,17 @@ def momentum(multi):
          '                flt(m, 0.0f64) ==> %s(*old(env), *env, %sSide::Ask),' % (v['NS'], v['A']),
          '                !fgt(m, 0.0f64) && !flt(m, 0.0f64) ==> %s == %s,' % (v['ORD']('env'), v['ORD']('old(env)')),
          '                %s.len() <= %s.len() + 2 * it.index@, %s(live_orders@, *env),' % (v['ORD']('env'), v['ORD']('old(env)'), v['OK']),
+         '                by_trader(%s, %s, self.trader_ids@, cut, mom_lo(m, p_limit, p_market), mom_hi(m, p_limit, p_market), it.index@ as int),' % (v['ORD']('old(env)'), v['ORD']('env')),
          '//@ at loop_body_start 0',
-         '            proof { assert(self.trader_ids@.contains(*trader_id)); axiom_f64_deterministic(); }']
+         '            broadcast use unit_draw_f64, below_one_below_threshold_f64;',
+         '            let ghost os_i = %s;' % v['ORD']('env'),
+         '            proof { assert(self.trader_ids@.contains(*trader_id)); axiom_f64_deterministic(); }',
+         '//@ at loop_body_end 0',
+         '            proof {',
+         '                assert forall|j: int| 0 <= j < os_i.len() implies %s[j] == os_i[j] by { }' % v['ORD']('env'),
+         '                lemma_by_trader_step(%s, os_i, %s, self.trader_ids@, cut, mom_lo(m, p_limit, p_market), mom_hi(m, p_limit, p_market), it.index@ as int);' % (v['ORD']('old(env)'), v['ORD']('env')),
+         '                cut = cut.push(%s.len() as int);' % v['ORD']('env'),
+         '            }']
     for (fn, ev, sd, quote) in (('place_buy_limit_order', 'e1', 'Side::Bid', 'buy_quote'), ('place_sell_limit_order', 'e3', 'Side::Ask', 'sell_quote')):
         L += ['//@ at before `%s%s(` #1' % (fn, v['SFX']), '                    let ghost %s = *env;' % ev,
               '//@ at after `%s%s(` #1' % (fn, v['SFX']), '                    proof {']
